@@ -64,6 +64,13 @@ def run(ctx):
             continue
         cats = categories(a)
         if ("conflict", "") in cats and len(cats) == 1:
+            if want and not any(s in (set(facts["token_defs"]) | set(facts["used_tokens"])) for s in facts["used_strs"]):
+                # spec.Parse itself accepted a specification that has one of the documented defects; only the automaton
+                # construction that follows objected (with a conflict report, which is about something else)
+                ctx.add_violation("accept/reject or diagnostics disagree with the documented well-formedness rules",
+                                  {"input_hex": hx(text), "input": text.decode(), "problems": ["spec.Parse accepted the specification although it has the defects %s" % sorted(c[0] for c in want)],
+                                   "implementation": decode_hex_fields(a)[:3000]})
+                continue
             stats["skipped_conflict"] += 1     # overlapping patterns: C03's subject
             continue
         cats.discard(("conflict", ""))
